@@ -60,6 +60,18 @@ type env struct {
 	srvLate       *vnet.TxStamp
 	srvSends      uint32
 	srvTxMode     int // 0: kernel transmit timestamp readable, 1: none, 2: delivered late (after the next reply was sent)
+	// reduced: only loss, holding back, port reuse and stale delivery are chosen
+	// (delays, clock offsets and timestamp availability stay at their defaults), so
+	// that longer chains of losses fit into the deviation bound
+	reduced bool
+}
+
+// pick is Choose, except that in the reduced alphabet the named choice is not offered.
+func (e *env) pick(n int, label string) int {
+	if e.reduced {
+		return 0
+	}
+	return e.x.Choose(n, label)
 }
 
 type realServer struct {
@@ -162,13 +174,13 @@ func (e *env) clientSock() *vnet.UDPConn {
 // serve produces the replies to one request (0, 1 or 2).
 func (e *env) serve(d *vnet.Datagram) []*kit.Reply {
 	x := e.x
-	act := x.Choose(3, "req")
+	act := x.Choose(map[bool]int{false: 3, true: 2}[e.reduced], "req")
 	if act == 1 {
 		x.Logf("request dropped")
 		return nil
 	}
-	e.s.Theta = thetas[x.Choose(len(thetas), "theta")]
-	fwd := delays[x.Choose(len(delays), "fwd")]
+	e.s.Theta = thetas[e.pick(len(thetas), "theta")]
+	fwd := delays[e.pick(len(delays), "fwd")]
 	var out []*kit.Reply
 	n := 1
 	if act == 2 {
@@ -181,7 +193,7 @@ func (e *env) serve(d *vnet.Datagram) []*kit.Reply {
 		} else {
 			// the reference server may be unsynchronised for one exchange: it answers
 			// (and records the exchange) as always, the client discards the reply
-			e.s.Unsync = x.Choose(2, "srv-unsync") == 1
+			e.s.Unsync = e.pick(2, "srv-unsync") == 1
 			r = e.s.Serve(d, fwd)
 		}
 		if r != nil {
@@ -225,7 +237,7 @@ func (e *env) realServe(d *vnet.Datagram, fwd time.Duration) *kit.Reply {
 	ex.Fwd = time.Since(s.SendTrue[d.Seq].Add(2 * time.Microsecond))
 	reqPayload, _, _ := s.T.Unwrap(d)
 	ntp.DecodePacket(&ex.Req, reqPayload)
-	e.srvTxMode = e.x.Choose(3, "srv-txts")
+	e.srvTxMode = e.pick(3, "srv-txts")
 	w.Clock.Offset += s.Theta
 	rx := w.Clock.Peek()
 	before := w.Net.NumSent()
@@ -282,10 +294,15 @@ func (e *env) realServe(d *vnet.Datagram, fwd time.Duration) *kit.Reply {
 	return &kit.Reply{E: ex, D: out, Left: time.Now()}
 }
 
-func program(r *mc.Run, interleaved, real, overSCION bool, calls int) func(x *mc.X) {
+func program(r *mc.Run, interleaved, real, overSCION bool, calls int, reduced ...bool) func(x *mc.X) {
 	return func(x *mc.X) {
 		world.Run(r.T, x, func(w *world.World) {
-			e := &env{w: w, x: x, flt: &kit.RecFilter{}, scion: overSCION}
+			e := &env{w: w, x: x, flt: &kit.RecFilter{}, scion: overSCION, reduced: len(reduced) > 0 && reduced[0]}
+			if e.reduced {
+				// the system hands the client the same ephemeral port for every exchange, so
+				// a delayed reply can reach a later exchange
+				w.Net.StickyPort = true
+			}
 			// a poll of the error queue for a transmit timestamp that is not there takes its timeout
 			w.Net.PollBlocks = func(c *vnet.UDPConn) bool { return e.real == nil || c != e.real.sock }
 			e.s = kit.NewSim(w, x, kit.IPTransport, srvAddr)
@@ -324,7 +341,10 @@ func program(r *mc.Run, interleaved, real, overSCION bool, calls int) func(x *mc
 			sc := &client.SCIONClient{Log: w.Log, InterleavedMode: interleaved, Filter: e.flt}
 			spath := kit.PathSpec{Kind: "scion", Segs: []int{2, 2}}.SnetPath(kit.CliIA, kit.SrvIA, net.UDPAddrFromAddrPort(kit.Router))
 			for call := 0; call < calls; call++ {
-				gap := gaps[x.Choose(len(gaps), "gap")]
+				gap := gaps[e.pick(len(gaps), "gap")]
+				if e.reduced {
+					gap = 0 // calls follow each other at once: a chain of failed calls stays inside the interleaved window
+				}
 				if call > 0 {
 					// make the next request's clock reading exactly lastTx + gap
 					d := e.lastTx.Add(gap).Sub(w.Clock.Peek().Add(1))
@@ -332,7 +352,7 @@ func program(r *mc.Run, interleaved, real, overSCION bool, calls int) func(x *mc
 						time.Sleep(d)
 					}
 				}
-				e.s.TxTS = x.Choose(2, "txts") == 0
+				e.s.TxTS = e.pick(2, "txts") == 0
 				var ts time.Time
 				var off time.Duration
 				var err error
@@ -342,6 +362,7 @@ func program(r *mc.Run, interleaved, real, overSCION bool, calls int) func(x *mc
 				th := w.Go("client", func() {
 					if overSCION {
 						local := udp.UDPAddr{IA: kit.CliIA, Host: &net.UDPAddr{IP: clientIP}}
+
 						remote := udp.UDPAddr{IA: kit.SrvIA, Host: &net.UDPAddr{IP: kit.SrvHost.AsSlice(), Port: kit.SrvPort}}
 						ts, off, err = client.MeasureClockOffsetSCION(ctx, w.Log, []*client.SCIONClient{sc}, local, remote, []snet.Path{spath})
 						return
@@ -385,9 +406,9 @@ func program(r *mc.Run, interleaved, real, overSCION bool, calls int) func(x *mc
 					}
 					x.Transitions++
 					// decisions for the next attempt / this attempt's deliveries
-					e.s.TxTS = x.Choose(2, "txts-next") == 0
-					e.s.RxTS = x.Choose(2, "rxts") == 0
-					if x.Choose(2, "next-port") == 1 {
+					e.s.TxTS = e.pick(2, "txts-next") == 0
+					e.s.RxTS = e.pick(2, "rxts") == 0
+					if e.pick(2, "next-port") == 1 {
 						w.Net.NextPort = sock.Local().Port()
 					}
 					// a held (stale) reply addressed to this socket may arrive first
@@ -407,15 +428,21 @@ func program(r *mc.Run, interleaved, real, overSCION bool, calls int) func(x *mc
 						if th.Finished() || sock.Closed() {
 							break
 						}
-						switch x.Choose(4, "reply") {
+						rc := 0
+						if e.reduced {
+							rc = []int{0, 3, 1}[x.Choose(3, "reply")] // deliver, hold, drop
+						} else {
+							rc = x.Choose(4, "reply")
+						}
+						switch rc {
 						case 0:
 							e.lastDelivered = rp
-							e.s.Deliver(rp, sock, delays[x.Choose(len(delays), "bwd")])
+							e.s.Deliver(rp, sock, delays[e.pick(len(delays), "bwd")])
 						case 1:
 							x.Logf("reply %d dropped", rp.E.N)
 						case 2:
 							e.lastDelivered = rp
-							e.s.Deliver(rp, sock, delays[x.Choose(len(delays), "bwd")])
+							e.s.Deliver(rp, sock, delays[e.pick(len(delays), "bwd")])
 							if !sock.Closed() {
 								e.s.Deliver(rp, sock, 0)
 							}
@@ -472,6 +499,12 @@ func TestCheck(t *testing.T) {
 				r.Explore(mc.Config{Name: name, Bound: mc.Pick(r, 3, 4)}, program(r, il, real, true, mc.Pick(r, 3, 4)))
 			}
 		}
-		r.Extra["rule"] = "histories of 3 (4) MeasureClockOffsetIP / MeasureClockOffsetSCION calls (each up to 3 exchanges) with the real IPClient and the real SCIONClient (one path), interleaved mode on/off, against a reference server and against the repository's runIPServer / runSCIONServer; per exchange: request {deliver, drop, duplicate}, server clock offset in {0,+1.37s,-250ms}, forward/backward delay in {3ms,0,1ns,40ms}, reply {deliver, drop, duplicate, hold and deliver stale later}, reference server synchronised / unsynchronised for that exchange (LI=3, stratum 0: the client must discard the reply and keep naming the last accepted exchange), client port fresh/reused, kernel rx/tx timestamps present/absent, gap to next call in {1s,0,3s-1ns,3s,3s+1ns,10s}; all histories within 3 (4) deviations"
+		// chains of losses: only {deliver, drop} for requests, {deliver, hold, drop} for
+		// replies, port reuse and stale delivery are chosen, within 5 (6) deviations
+		for _, sc := range []bool{false, true} {
+			name := fmt.Sprintf("loss-chains/scion=%v", sc)
+			r.Explore(mc.Config{Name: name, Bound: mc.Pick(r, 5, 6)}, program(r, true, false, sc, mc.Pick(r, 5, 6), true))
+		}
+		r.Extra["rule"] = "histories of 3 (4) MeasureClockOffsetIP / MeasureClockOffsetSCION calls (each up to 3 exchanges) with the real IPClient and the real SCIONClient (one path), interleaved mode on/off, against a reference server and against the repository's runIPServer / runSCIONServer; per exchange: request {deliver, drop, duplicate}, server clock offset in {0,+1.37s,-250ms}, forward/backward delay in {3ms,0,1ns,40ms}, reply {deliver, drop, duplicate, hold and deliver stale later}, reference server synchronised / unsynchronised for that exchange (LI=3, stratum 0: the client must discard the reply and keep naming the last accepted exchange), client port fresh/reused, kernel rx/tx timestamps present/absent, gap to next call in {1s,0,3s-1ns,3s,3s+1ns,10s}; all histories within 3 (4) deviations; in addition histories of 5 (6) back-to-back calls in interleaved mode with the same ephemeral client port handed out for every exchange, over a reduced alphabet (request {deliver, drop}, reply {deliver, hold, drop}, stale delivery first) within 5 (6) deviations"
 	})
 }
